@@ -29,8 +29,9 @@ CANCELS = ['before_start', 'in_callee', 'wait_for', 'after_sent']     # cancella
 
 def protected_wait():
     """the wait of the current source has a cleanup handler (translator output): only then cancelled invocations are mixed
-    into concurrent batches - without it (open finding C17-K5) a cancelled invocation leaves its reader registered with the
-    loop under an fd number that the next Pipe() reuses, so that an unrelated later invocation never wakes up"""
+    into concurrent batches - without it (open finding C17-K5) every cancelled invocation leaves an open descriptor, a reader
+    registration and a running child on the shared loop / process, which the batch-level observations (fd count, children left)
+    would charge to the whole batch"""
     try:
         return 'PIfNotPollWaitH' in open(os.path.join(COQ, 'Gen', 'Subproc.v')).read()
     except OSError:
